@@ -86,7 +86,7 @@ func missingTracksRule(c *Ctx, rule string, readFrom *ssa.Function) {
 		for _, bb := range f.Blocks {
 			for _, in := range bb.Instrs {
 				if l, ok := in.(*ssa.UnOp); ok && l.Op == token.MUL {
-					if fv := fieldVar(l.X); fv != nil && fv.Name() == "numTracks" {
+					if fv := fieldVar(l.X); p.isRoleField(fv, "smf.SMF", "numTracks") {
 						uses = true
 					}
 				}
